@@ -12,12 +12,14 @@ from . import detsched
 
 
 class MacroReplay(detsched.Strategy):
-    def __init__(self, actions, task_of, boundary, after, max_inner=200):
+    def __init__(self, actions, task_of, boundary, after, max_inner=200, chooser=None, env=None):
         self.actions = list(actions)
         self.task_of = task_of  # action -> task name
         self.boundary = boundary  # (task, seen) -> bool : parked at an action boundary; seen = labels parked at
         # during the current action (None when asked outside an action: setup / start of an action)
         self.after = after  # (k, action, sched) -> None ; may raise ReplayMismatch
+        self.chooser = chooser  # (action, n, label) -> index : data choices made while the action runs
+        self.env = env  # (action, sched) -> None : executes an environment action (task_of(action) is None)
         self.k = 0
         self.target = None
         self.inner = 0
@@ -34,6 +36,60 @@ class MacroReplay(detsched.Strategy):
                 return t
         return None
 
+    def _fail(self, mm):
+        self.mismatch = mm
+        raise detsched.Divergence("state mismatch: " + str(mm))
+
+    def _advance(self, sched):
+        """Bookkeeping that needs no task step: complete the current action if its task is parked at a boundary (or has
+        exited), execute environment actions, notice the end of the walk.  Returns True if anything changed."""
+        progress = False
+        while True:
+            if self.target is not None:
+                T = self.target
+                if self.pending_label:
+                    self.seen.append(T.label)
+                    self.pending_label = False
+                if T.state == "done" or (self.inner > 0 and self.boundary(T, self.seen)):
+                    mm = self.after(self.k, self.actions[self.k], sched)
+                    if mm is not None:
+                        self._fail(mm)
+                    self.k += 1
+                    self.target = None
+                    progress = True
+                    continue
+                return progress
+            if self.k >= len(self.actions):
+                if not self.done:
+                    self.done = True
+                    progress = True
+                return progress
+            name = self.task_of(self.actions[self.k])
+            if name is None:   # environment action: executed by the replayer itself
+                self.env(self.actions[self.k], sched)
+                mm = self.after(self.k, self.actions[self.k], sched)
+                if mm is not None:
+                    self._fail(mm)
+                self.k += 1
+                progress = True
+                continue
+            T = self._find(sched, name)
+            if T is None:
+                raise detsched.Divergence(f"action {self.k} {self.actions[self.k]!r}: no task named {name}")
+            if not self.boundary(T, None):
+                raise detsched.Divergence(f"action {self.k}: task {name} is at {T.label}, not at a boundary")
+            self.target = T
+            self.inner = 0
+            self.seen = []
+            self.pending_label = False
+            progress = True
+
+    def on_idle(self, sched):
+        """Called by the scheduler when no task is enabled: the walk may continue with an environment action."""
+        if not self.setup_done:
+            self.setup_done = True
+        return self._advance(sched)
+
     def pick(self, sched, enabled):
         # phase 0: let the driver and every new thread run to their first boundary
         if not self.setup_done:
@@ -44,43 +100,33 @@ class MacroReplay(detsched.Strategy):
                 if t is not main and not self.boundary(t, None):
                     return t
             self.setup_done = True
-        while True:
-            if self.target is not None:
-                T = self.target
-                if self.pending_label:
-                    self.seen.append(T.label)
-                    self.pending_label = False
-                if T.state == "done" or (self.inner > 0 and self.boundary(T, self.seen)):
-                    mm = self.after(self.k, self.actions[self.k], sched)
-                    if mm is not None:
-                        self.mismatch = mm
-                        raise detsched.Divergence("state mismatch: " + str(mm))
-                    self.k += 1
-                    self.target = None
-                    continue
-                if T not in enabled:
-                    raise detsched.Divergence(
-                        f"action {self.k} {self.actions[self.k]!r}: task {T.name} blocked at {T.label} mid-action")
-                self.inner += 1
-                self.pending_label = True
-                if self.inner > self.max_inner:
-                    raise detsched.Divergence(f"action {self.k}: more than {self.max_inner} inner steps")
-                return T
-            if self.k >= len(self.actions):
-                self.done = True
-                # finish: run everything fairly (lowest id first), driver last
-                rest = [t for t in enabled if t is not sched.main]
-                return rest[0] if rest else enabled[0]
-            name = self.task_of(self.actions[self.k])
-            T = self._find(sched, name)
-            if T is None:
-                raise detsched.Divergence(f"action {self.k} {self.actions[self.k]!r}: no task named {name}")
-            if not self.boundary(T, None):
-                raise detsched.Divergence(f"action {self.k}: task {name} is at {T.label}, not at a boundary")
-            self.target = T
-            self.inner = 0
-            self.seen = []
-            self.pending_label = False
+        if self._advance(sched):
+            enabled = [x for x in sched.tasks if x.is_enabled(sched.now)]
+        if self.target is not None:
+            T = self.target
+            if T not in enabled:
+                raise detsched.Divergence(
+                    f"action {self.k} {self.actions[self.k]!r}: task {T.name} blocked at {T.label} mid-action")
+            self.inner += 1
+            self.pending_label = True
+            if self.inner > self.max_inner:
+                raise detsched.Divergence(f"action {self.k}: more than {self.max_inner} inner steps")
+            return T
+        # walk finished: run everything to completion, library threads first
+        rest = [t for t in enabled if t is not sched.main]
+        if rest:
+            return rest[0]
+        if enabled:
+            return enabled[0]
+        raise detsched.Divergence("nothing enabled after the walk")
+
+    def _choose(self, sched, n, label):
+        if self.chooser is not None and self.k < len(self.actions):
+            return self.chooser(self.actions[self.k], n, label)
+        return 0
+
+
+MacroReplay.choose = MacroReplay._choose
 
 
 class ReplayMismatch(Exception):
